@@ -10,7 +10,7 @@ def run(ctx):
     import corr_engine as ce
     rng = random.Random(ctx["seed"] + 991)
     cases = []
-    for _ in range(80 if ctx["tier"] == "quick" else 2000):
+    for _ in range(80 * nv.boost("engine") if ctx["tier"] == "quick" else 2000):
         p, theme = ce.gen_problem(rng)
         cfg = ce.gen_cfg(rng, p, cons=0)
         j0 = ce.cfg_json(cfg)
